@@ -280,12 +280,40 @@ def check_small(ctx, case):
             run_pair(ctx, case['ast'], None, [3, 1, 4], ['x9', 'labeled'][:len(case['ast']['atoms'])], smi, state)
 
 
+# -- ring closures: the bond kind carried by a 'ringbond' statement --------------------------------------------
+RING_MOLS = ['C1CC1', 'C1=CC1', 'C1CO1', 'C1CCC1', 'C1=CCC1', 'C1CC2CC12', 'C1CCCC1', 'C1=CCCC1', 'C1=CC=CC1', 'c1ccccc1', 'C1CCCCC1',
+             'C1=CCCCC1', 'c1ccoc1', 'C1CC1C', 'C1CC1C=C', 'C1=CC1C', 'O=C1CC1', 'C1COC1', 'C1=COC=C1', 'C1CC1[Pt]']
+
+
+def enum_rings(tier):
+    for size in (3, 4, 5, 6):
+        for sym in ('C', 'X', '$'):
+            for inner in ('any', 'single'):
+                for bk in EX_BONDS + ['quadruple']:
+                    for first in (True, False):
+                        atoms = [dict(prefix=None, symbol=sym, suffix='?', label='r%d' % k, constraints=[]) for k in range(size)]
+                        tree = [[k, k - 1, inner] for k in range(1, size)]
+                        # the closing statement names the two ends in either order
+                        rb = [size - 1, 0, bk] if first else [0, size - 1, bk]
+                        yield dict(kind='ring', ast=dict(molprefix=[], name='rc', atoms=atoms, tree=tree, ringbonds=[rb], stereo=[]))
+
+
+def check_ring(ctx, case):
+    size = len(case['ast']['atoms'])
+    k = sum(map(ord, str(case['ast'])))
+    mols = RING_MOLS if ctx.tier == 'thorough' else [m for j, m in enumerate(RING_MOLS) if (j + k) % 3 == 0 or m.count('C') + m.count('c') + 1 == size]
+    for smi in mols:
+        run_pair(ctx, case['ast'], None, [2, 0, 1], ['7', 'ring', 'c1', 'bond', 'x', 'to'][:size], smi, 'as-read' if k % 2 else 'normalised')
+    ctx.event('ring-closure:%s' % case['ast']['ringbonds'][0][2])
+
+
 def check_any(ctx, case):
-    return {'pair': check_pair, 'small': check_small}[case['kind']](ctx, case)
+    return {'pair': check_pair, 'small': check_small, 'ring': check_ring}[case['kind']](ctx, case)
 
 
 FAMILIES = [
     Family('pairs', check_any, strategy=lambda tier: pair_case(), n=(20000, 300000)),
     Family('stereo', check_any, strategy=lambda tier: stereo_case(), n=(4000, 60000)),
     Family('bounded-exhaustive', check_any, enumerate=enum_small, stride=(25, 1)),
+    Family('ring-closures', check_any, enumerate=enum_rings, stride=(1, 1)),
 ]
